@@ -198,15 +198,22 @@ Section Proofs.
     replace (fee * pct / 100 + 1 <? two64) with true; [reflexivity|]. symmetry. apply N.ltb_lt. unfold two64 in *. lia.
   Qed.
 
+  (* the total the helper asks for *)
+  Definition f_required (fee : option N) (pct : N) : N :=
+    match fee with Some f => f * pct / 100 + 1 | None => 0 end.
+
   Theorem percent_ok : forall le pct addr ok fee b b',
     col_sorted (b_collateral b) ->
     percent_helper_gen min_ada false le pct addr ok fee b = (true, b') ->
     spec_holds min_ada b' /\ b_collateral b' = b_collateral b /\ ok = true /\
-    exists f, fee = Some f /\ b_fee b' = Some f /\ f * pct < two64 /\
-              b_total b' = Some (f * pct / 100 + 1) /\ spec_percent f pct (f * pct / 100 + 1).
+    (exists f, fee = Some f /\ b_fee b' = Some f /\ f * pct < two64 /\
+               b_total b' = Some (f * pct / 100 + 1) /\ spec_percent f pct (f * pct / 100 + 1)) /\
+    exists s, total_value (b_collateral b) = Ok s /\
+      b_return b' = if is_some (multiasset_of s) || (0 <? coin s - (f_required fee pct))
+                    then Some (output_new addr (mkValue (coin s - f_required fee pct) (multiasset_of s))) else None.
   Proof.
     intros le pct addr ok fee b b' Hc H. unfold percent_helper_gen in H.
-    destruct (total_value (b_collateral b)) as [tc| | |]; try (destruct le; discriminate).
+    destruct (total_value (b_collateral b)) as [tc| | |] eqn:Etv; try (destruct le; discriminate).
     destruct ok; cbn [negb] in H; [|discriminate]. fields. cbn [b_fee clear_fields with_total with_return with_fee] in H.
     destruct fee as [f|]; [|discriminate].
     unfold u64_mul in H. destruct (f * pct <? two64) eqn:Emul; cbn [bind] in H; [|discriminate].
@@ -216,11 +223,12 @@ Section Proofs.
       try discriminate.
     injection H as <-.
     assert (Hc3 : col_sorted (b_collateral b3')) by exact Hc.
-    destruct (total_then_return_ok false _ addr b3' b4 Hc3 (or_introl eq_refl) E) as (Hspec & Ht & Hcol & Hfee & _ & _).
-    repeat split; auto.
-    exists f. repeat split; auto.
-    - apply N.ltb_lt; exact Emul.
-    - unfold spec_percent. apply ceil_le_floor_plus_one.
+    destruct (total_then_return_ok false _ addr b3' b4 Hc3 (or_introl eq_refl) E) as (Hspec & Ht & Hcol & Hfee & _ & s & Hs & _ & Hret).
+    split; [exact Hspec|]. split; [exact Hcol|]. split; [reflexivity|]. split.
+    - exists f. repeat split; auto.
+      + apply N.ltb_lt; exact Emul.
+      + unfold spec_percent. apply ceil_le_floor_plus_one.
+    - exists s. split; [|exact Hret]. change (b_collateral b3') with (b_collateral b) in Hs. congruence.
   Qed.
 
   (* a failed attempt leaves neither field set (current code: after fixes/C19-percent-early-failure.patch) *)
@@ -279,8 +287,21 @@ Section Proofs.
     (spec_holds min_ada (snd (step_gen min_ada lr le (OpBalance f) b)) <-> spec_holds min_ada b).
   Proof. intros. cbn [step_gen snd]. split; [reflexivity|apply spec_holds_fee]. Qed.
 
+  (* what a successful helper leaves behind besides the spec: the sum of the inputs fits, the stored return is sorted *)
+  Definition governed_ok (b : builder) : Prop :=
+    spec_holds min_ada b /\ (exists s, total_value (b_collateral b) = Ok s) /\
+    value_sorted (return_value (b_return b)) = true.
+
   Definition inv (b : builder) (p : prov) : Prop :=
-    col_sorted (b_collateral b) /\ (p = Governed -> spec_holds min_ada b).
+    col_sorted (b_collateral b) /\ (p = Governed -> governed_ok b).
+
+  Lemma return_sorted_of_sum : forall s addr t, value_sorted s = true ->
+    value_sorted (return_value (if is_some (multiasset_of s) || (0 <? coin s - t)
+                                then Some (output_new addr (mkValue (coin s - t) (multiasset_of s))) else None)) = true.
+  Proof.
+    intros s addr t Hs. destruct (is_some (multiasset_of s) || (0 <? coin s - t)); [|reflexivity].
+    unfold return_value, output_new, value_sorted in *. cbn [o_amount multiasset_of]. exact Hs.
+  Qed.
 
   Lemma step_inv : forall le o b p, op_wf o -> inv b p ->
     inv (snd (step_gen min_ada false le o b)) (prov_step_gen min_ada false le o b p).
@@ -293,15 +314,18 @@ Section Proofs.
     - split; [exact Hc|discriminate].
     - destruct (set_collateral_return_and_total min_ada o b) as [b'| | |] eqn:E; cbn [of_result fst snd];
         try (split; assumption).
-      destruct (return_then_total_ok _ _ _ Hc Ho E) as (Hs & _ & Hcol & _).
-      split; [rewrite Hcol; exact Hc|intros _; exact Hs].
+      destruct (return_then_total_ok _ _ _ Hc Ho E) as (Hs & Hr & Hcol & _ & _ & s & Hsum & _).
+      split; [rewrite Hcol; exact Hc|intros _]. split; [exact Hs|]. split; [exists s; rewrite Hcol; exact Hsum|].
+      rewrite Hr. exact Ho.
     - destruct (set_total_collateral_and_return_gen min_ada false t addr b) as [b'| | |] eqn:E; cbn [of_result fst snd];
         try (split; assumption).
-      destruct (total_then_return_ok _ _ _ _ _ Hc (or_introl eq_refl) E) as (Hs & _ & Hcol & _).
-      split; [rewrite Hcol; exact Hc|intros _; exact Hs].
+      destruct (total_then_return_ok _ _ _ _ _ Hc (or_introl eq_refl) E) as (Hs & _ & Hcol & _ & _ & s & Hsum & _ & Hr).
+      split; [rewrite Hcol; exact Hc|intros _]. split; [exact Hs|]. split; [exists s; rewrite Hcol; exact Hsum|].
+      rewrite Hr. apply return_sorted_of_sum. apply (total_value_sem _ _ Hc Hsum).
     - destruct (percent_helper_gen min_ada false le pct addr bal_ok fee_after b) as [[|] b'] eqn:E; cbn [fst snd].
-      + destruct (percent_ok _ _ _ _ _ _ _ Hc E) as (Hs & Hcol & _).
-        split; [rewrite Hcol; exact Hc|intros _; exact Hs].
+      + destruct (percent_ok _ _ _ _ _ _ _ Hc E) as (Hs & Hcol & _ & _ & s & Hsum & Hr).
+        split; [rewrite Hcol; exact Hc|intros _]. split; [exact Hs|]. split; [exists s; rewrite Hcol; exact Hsum|].
+        rewrite Hr. apply return_sorted_of_sum. apply (total_value_sem _ _ Hc Hsum).
       + unfold percent_helper_gen in E.
         destruct (total_value (b_collateral b)) as [tc| | |] eqn:Et.
         * split; [|discriminate].
@@ -315,7 +339,7 @@ Section Proofs.
         * destruct le; injection E as <-; (split; [exact Hc|]); [exact Hg|discriminate].
         * destruct le; injection E as <-; (split; [exact Hc|]); [exact Hg|discriminate].
         * destruct le; injection E as <-; (split; [exact Hc|]); [exact Hg|discriminate].
-    - split; [exact Hc|]. intro E. apply spec_holds_fee. apply Hg. exact E.
+    - split; [exact Hc|]. intro E. destruct (Hg E) as (H1 & H2 & H3). split; [apply spec_holds_fee; exact H1|]. split; assumption.
   Qed.
 
   Lemma run_prov_inv : forall le h b p, Forall op_wf h -> inv b p ->
@@ -343,6 +367,174 @@ Section Proofs.
     pose proof (run_prov_inv legacy_early_failure_keeps_fields h builder_new Free Hh Hi) as [_ Hg].
     unfold run_prov, legacy_keeps_stale_return in Hr. rewrite Hr in Hg. cbn [fst snd] in Hg.
     apply Hg. destruct p; [congruence|reflexivity|discriminate].
+  Qed.
+
+  (* ----------------------------------------------------------------------------------------- *)
+  (* The judge *)
+
+  Lemma spec_min_adab_spec : forall r, spec_min_adab min_ada r = true <-> spec_min_ada min_ada r.
+  Proof.
+    intros [o|]; cbn [spec_min_adab spec_min_ada]; [|tauto].
+    destruct (min_ada o) as [m| | |]; split; intro H; try discriminate.
+    - exists m. split; [reflexivity|apply N.leb_le; exact H].
+    - destruct H as (m' & E & H). injection E as <-. apply N.leb_le; exact H.
+    - destruct H as (? & ? & _); discriminate.
+    - destruct H as (? & ? & _); discriminate.
+    - destruct H as (? & ? & _); discriminate.
+  Qed.
+
+  Lemma spec_consistentb_spec : forall ins r t s,
+    vals_sorted ins -> value_sorted (return_value r) = true -> sum_values value_zero ins = Ok s ->
+    (spec_consistentb ins r t = true <-> spec_consistent ins r t).
+  Proof.
+    intros ins r t s Hi Hr Hs. unfold spec_consistentb. rewrite Hs.
+    destruct (sum_values_sem _ _ _ (eq_refl : value_sorted value_zero = true) Hi Hs) as (Hss & Hc & Hq).
+    rewrite (value_eqb_sem_spec s _ Hss) by exact Hr.
+    unfold value_eq_sem, spec_consistent. cbn [coin]. change (coin value_zero) with 0 in Hc.
+    split; intros [H1 H2]; (split; [lia|]); intros p n; specialize (H2 p n); specialize (Hq p n);
+      change (qty value_zero p n) with 0 in Hq; unfold qty in *; cbn [multiasset_of] in *; lia.
+  Qed.
+
+  (* the executable judge decides the statement: acceptance is sound for all inputs; it is complete whenever the plain
+     sum of the inputs fits in 64 bits per lovelace and per asset (which every state written by a helper satisfies) *)
+  Theorem judge_decides_spec : forall ins r t,
+    vals_sorted ins -> value_sorted (return_value r) = true ->
+    (spec_holdsb min_ada ins r t = true ->
+       exists t', t = Some t' /\ spec_consistent ins r t' /\ spec_min_ada min_ada r) /\
+    (forall s t', sum_values value_zero ins = Ok s -> t = Some t' -> spec_consistent ins r t' -> spec_min_ada min_ada r ->
+       spec_holdsb min_ada ins r t = true).
+  Proof.
+    intros ins r t Hi Hr. split.
+    - unfold spec_holdsb. destruct t as [t'|]; [|discriminate]. intro H. apply andb_true_iff in H. destruct H as [H1 H2].
+      exists t'. split; [reflexivity|]. split; [|apply spec_min_adab_spec; exact H2].
+      unfold spec_consistentb in H1. destruct (sum_values value_zero ins) as [s| | |] eqn:Es; try discriminate.
+      apply (spec_consistentb_spec ins r t' s Hi Hr Es). unfold spec_consistentb. rewrite Es. exact H1.
+    - intros s t' Es -> H1 H2. unfold spec_holdsb. apply andb_true_iff. split.
+      + apply (spec_consistentb_spec ins r t' s Hi Hr Es). exact H1.
+      + apply spec_min_adab_spec. exact H2.
+  Qed.
+
+  Lemma inv_good : forall b p, inv b p -> p = Governed ->
+    spec_holdsb min_ada (map snd (b_collateral b)) (b_return b) (b_total b) = true.
+  Proof.
+    intros b p [Hc Hg] E. destruct (Hg E) as (Hs & (s & Hsum) & Hr).
+    unfold spec_holds in Hs. destruct (b_total b) as [t|] eqn:Et; [|contradiction]. destruct Hs as [H1 H2].
+    exact (proj2 (judge_decides_spec _ _ (Some t) Hc Hr) s t Hsum eq_refl H1 H2).
+  Qed.
+
+  Lemma txin_cmp_refl : forall k, txin_cmp k k = Eq.
+  Proof. intros [a i]. unfold txin_cmp. cbn [fst snd]. rewrite bytes_cmp_refl. apply N.compare_refl. Qed.
+
+  Lemma fields_keys_match_refl : forall b, fields_keys_match b (build_fields b) = true.
+  Proof.
+    intro b. unfold fields_keys_match, build_fields. cbn [f13].
+    destruct (b_collateral b) as [|kv c]; [reflexivity|].
+    apply andb_true_iff. split.
+    - rewrite map_length. apply Nat.eqb_refl.
+    - generalize (map fst (kv :: c)). intro l. induction l as [|k l IH]; [reflexivity|].
+      cbn [combine forallb fst snd]. rewrite txin_cmp_refl. exact IH.
+  Qed.
+
+  Lemma assets_eqb_refl : forall a, assets_eqb a a = true.
+  Proof. induction a as [|[n q] a IH]; cbn [assets_eqb]; [reflexivity|]. rewrite bytes_eqb_refl, N.eqb_refl. exact IH. Qed.
+  Lemma ma_eqb_refl : forall m, ma_eqb m m = true.
+  Proof. induction m as [|[p a] m IH]; cbn [ma_eqb]; [reflexivity|]. rewrite bytes_eqb_refl, assets_eqb_refl. exact IH. Qed.
+  Lemma output_eqb_refl : forall o, output_eqb o o = true.
+  Proof.
+    intro o. unfold output_eqb, value_struct_eqb. rewrite !bytes_eqb_refl, N.eqb_refl.
+    destruct (multiasset_of (o_amount o)); cbn [opt_eqb]; [rewrite ma_eqb_refl|]; reflexivity.
+  Qed.
+  Lemma opt_output_eqb_refl : forall o, opt_eqb output_eqb o o = true.
+  Proof. intros [o|]; cbn [opt_eqb]; [apply output_eqb_refl|reflexivity]. Qed.
+  Lemma opt_N_eqb_refl : forall o, opt_eqb N.eqb o o = true.
+  Proof. intros [o|]; cbn [opt_eqb]; [apply N.eqb_refl|reflexivity]. Qed.
+
+  Lemma prov_step_obs_model : forall o b p,
+    prov_step_obs o p (fst (step min_ada o b)) = prov_step_gen min_ada false false o b p.
+  Proof.
+    intros o b p. unfold step, legacy_keeps_stale_return, legacy_early_failure_keeps_fields.
+    destruct o; cbn [prov_step_obs prov_step_gen]; try reflexivity.
+    destruct (fst (step_gen min_ada false false (OpPercent pct addr bal_ok fee_after) b)); [reflexivity|].
+    destruct (total_value (b_collateral b)); reflexivity.
+  Qed.
+
+  Lemma by_prov_ok : forall b p, inv b p ->
+    match p with
+    | Governed => if spec_holdsb min_ada (map snd (b_collateral b)) (b_return b) (b_total b) then Holds else FailsUnknown
+    | Stale => if spec_holdsb min_ada (map snd (b_collateral b)) (b_return b) (b_total b) then Holds else FailsKnown 1
+    | Free => NotApplicable
+    end <> FailsUnknown.
+  Proof.
+    intros b p Hi. destruct p; [discriminate| |].
+    - rewrite (inv_good b Governed Hi eq_refl). discriminate.
+    - destruct (spec_holdsb _ _ _ _); discriminate.
+  Qed.
+
+  Lemma f16_build : forall b, f16 (build_fields b) = b_return b.
+  Proof. reflexivity. Qed.
+  Lemma f17_build : forall b, f17 (build_fields b) = b_total b.
+  Proof. reflexivity. Qed.
+
+  Lemma judge_op_model : forall o b p, op_wf o -> inv b p ->
+    judge_op min_ada o (build_fields b) (snd (step min_ada o b)) (prov_step_gen min_ada false false o b p)
+             (mkObs (fst (step min_ada o b)) (build_fields (snd (step min_ada o b))) (b_fee (snd (step min_ada o b))))
+    <> FailsUnknown.
+  Proof.
+    intros o b p Ho Hi.
+    pose proof (step_inv false o b p Ho Hi) as Hi'.
+    unfold step, legacy_keeps_stale_return, legacy_early_failure_keeps_fields in *.
+    set (b' := snd (step_gen min_ada false false o b)) in *.
+    set (p' := prov_step_gen min_ada false false o b p) in *.
+    unfold judge_op. cbn [ob_fields ob_ok ob_fee]. rewrite fields_keys_match_refl. cbn [negb].
+    rewrite !f16_build, !f17_build.
+    pose proof (by_prov_ok b' p' Hi') as Hprov.
+    destruct o; try exact Hprov.
+    - (* explicit return *)
+      destruct (fst (step_gen min_ada false false (OpReturnAndTotal o) b)) eqn:Eok.
+      + assert (Ep : p' = Governed) by (unfold p'; cbn [prov_step_gen]; rewrite Eok; reflexivity).
+        rewrite (inv_good b' p' Hi' Ep). discriminate.
+      + assert (Eb : b' = b) by (apply (explicit_failure_unchanged false false (OpReturnAndTotal o) b I Eok)).
+        rewrite Eb in *. rewrite opt_output_eqb_refl, opt_N_eqb_refl. cbn [andb]. exact Hprov.
+    - (* explicit total *)
+      destruct (fst (step_gen min_ada false false (OpTotalAndReturn t addr) b)) eqn:Eok.
+      + assert (Ep : p' = Governed) by (unfold p'; cbn [prov_step_gen]; rewrite Eok; reflexivity).
+        rewrite (inv_good b' p' Hi' Ep). discriminate.
+      + assert (Eb : b' = b) by (apply (explicit_failure_unchanged false false (OpTotalAndReturn t addr) b I Eok)).
+        rewrite Eb in *. rewrite opt_output_eqb_refl, opt_N_eqb_refl. cbn [andb]. exact Hprov.
+    - (* percentage helper *)
+      destruct Hi as [Hc _].
+      destruct (step_gen min_ada false false (OpPercent pct addr bal_ok fee_after) b) as [ok b2] eqn:Es.
+      cbn [step_gen] in Es. cbn [fst snd] in *. subst b'.
+      destruct ok.
+      + assert (Ep : p' = Governed) by (unfold p'; cbn [prov_step_gen step_gen]; rewrite Es; reflexivity).
+        destruct (percent_ok _ _ _ _ _ _ _ Hc Es) as (_ & _ & _ & (f & _ & Hfee & _ & Ht & Hp) & _).
+        rewrite Hfee, Ht.
+        pose proof (inv_good b2 p' Hi' Ep) as Hg. rewrite Ht in Hg. rewrite Hg. cbn [andb].
+        unfold spec_percentb. replace (ceil_div (f * pct) 100 <=? f * pct / 100 + 1) with true; [discriminate|].
+        symmetry. apply N.leb_le. exact Hp.
+      + destruct (percent_failure_unset _ _ _ _ _ _ _ Es) as (Hr & Ht & _). rewrite Hr, Ht. discriminate.
+  Qed.
+
+  Lemma worse_ok : forall a b, a <> FailsUnknown -> b <> FailsUnknown -> worse a b <> FailsUnknown.
+  Proof. intros [] []; cbn [worse]; congruence. Qed.
+
+  Lemma judge_run_model : forall h b p acc,
+    Forall op_wf h -> inv b p -> acc <> FailsUnknown ->
+    judge_run min_ada h (model_obs min_ada h b) (build_fields b) b p acc <> FailsUnknown.
+  Proof.
+    induction h as [|o h IH]; intros b p acc Hh Hi Ha; cbn [model_obs judge_run]; [exact Ha|].
+    inversion Hh; subst. cbn [ob_ok ob_fields]. rewrite prov_step_obs_model.
+    apply IH; [assumption| |].
+    - pose proof (step_inv false o b p H1 Hi) as Hi'. exact Hi'.
+    - apply worse_ok; [exact Ha|]. apply judge_op_model; assumption.
+  Qed.
+
+  (* the judge never rejects what the model itself produces (verdicts: holds, na, or the known class) *)
+  Theorem judge_accepts_model : forall h, Forall op_wf h ->
+    judge min_ada h (model_obs min_ada h builder_new) <> FailsUnknown.
+  Proof.
+    intros h Hh. unfold judge. apply judge_run_model; [exact Hh| |discriminate].
+    split; [constructor|discriminate].
   Qed.
 End Proofs.
 
